@@ -1,1 +1,223 @@
-From OPF Require Import Model.Knn Model.Pdf.
+(* C13: "After KNN-supervised or unsupervised training, predecessor links form a forest over
+   all training samples in which every sample reaches exactly one root, its recorded root is
+   that root, and its cluster identifier (unsupervised) or assigned label (KNN-supervised)
+   equals the root's. Roots have cost equal to their density, every other sample was a graph
+   neighbour of its predecessor and has cost min(cost(predecessor), own density) strictly
+   above its density minus 1, and no sample's density exceeds its root's by 1 or more. The
+   reported number of clusters equals the number of roots, whose identifiers are
+   0..n_clusters-1, and label propagation gives every sample the true label of its root."
+
+   Models (Model/Knn.v, executed at W := Z, ltb := Z.ltb):
+     [clustering_sup force g]  = KNNSupervisedOPF._clustering(force_prototype)
+     [clustering_unsup k g]    = UnsupervisedOPF._clustering(k)
+     [propagate_labels g]      = UnsupervisedOPF.propagate_labels
+   on a graph [g] with [n] nodes whose per-node arrays have length [n], whose adjacency entries
+   are node indices, and whose initial cost lies strictly below the density
+   ("density minus 1" is the relation cost = density - 1 of the numeric layer; it is needed
+   only for the density-gap theorems).  [zero], [top], [bot] stand for 0.0, FLOAT_MAX,
+   -FLOAT_MAX; [bot] only matters for force_prototype = True, where it must lie below every
+   initial cost.  "Graph neighbour" = member of the adjacency list the loop iterates over
+   (after the plateau step; unsupervised: its first n_plateaus + k entries).
+   [before ord p q]: p was removed from the heap before q ([ord] = the part of idx_nodes
+   appended by the call, a permutation of 0..n-1). *)
+From OPF Require Import Proofs.HeapPrelude Base.Lists Model.Heap Model.Knn Spec.Paths Spec.Trees
+  Proofs.ClusterMain.
+
+(* ---------------- KNN-supervised ---------------- *)
+
+(* every sample is removed exactly once *)
+Theorem C13_sup_order :
+  forall (zero top bot : Z) (force : bool) (g : @knn Z) (n : nat),
+    length (k_label g) = n -> length (k_cost g) = n -> length (k_pred g) = n ->
+    length (k_root g) = n -> length (k_plabel g) = n -> length (k_clabel g) = n ->
+    (forall p q, In q (nth p (k_adj g) []) -> q < n) ->
+    (forall i, i < n -> (nth i (k_cost g) zero < nth i (k_dens g) zero)%Z) ->
+    (force = true -> forall i, i < n -> (bot < nth i (k_cost g) zero)%Z) ->
+    let g' := clustering_sup Z.ltb zero top bot force g in
+    exists ord, k_order g' = k_order g ++ ord /\ Permutation ord (seq 0 n).
+Proof. exact clustering_sup_order. Qed.
+
+(* local shape: roots and links *)
+Theorem C13_sup_links :
+  forall (zero top bot : Z) (force : bool) (g : @knn Z) (n : nat),
+    length (k_label g) = n -> length (k_cost g) = n -> length (k_pred g) = n ->
+    length (k_root g) = n -> length (k_plabel g) = n -> length (k_clabel g) = n ->
+    (forall p q, In q (nth p (k_adj g) []) -> q < n) ->
+    (forall i, i < n -> (nth i (k_cost g) zero < nth i (k_dens g) zero)%Z) ->
+    (force = true -> forall i, i < n -> (bot < nth i (k_cost g) zero)%Z) ->
+    let g' := clustering_sup Z.ltb zero top bot force g in
+    let pred := fun q => nth q (k_pred g') None in
+    let root := fun q => nth q (k_root g') 0 in
+    let cost := fun q => nth q (k_cost g') zero in
+    let plabel := fun q => nth q (k_plabel g') 0 in
+    let dens := fun q => nth q (k_dens g) zero in
+    let cost0 := fun q => nth q (k_cost g) zero in
+    let label := fun q => nth q (k_label g) 0 in
+    k_label g' = k_label g /\ k_dens g' = k_dens g /\
+    k_adj g' = plateau_sup Z.ltb zero n (k_dens g) (k_adj g) /\
+    exists ord, k_order g' = k_order g ++ ord /\ Permutation ord (seq 0 n) /\
+      forall q, q < n ->
+        match pred q with
+        | None => root q = q /\ cost q = dens q /\ plabel q = label q
+        | Some p => p < n /\ before ord p q /\ In q (nth p (k_adj g') []) /\
+                    root q = root p /\ cost q = Z.min (cost p) (dens q) /\
+                    (cost0 q < cost q)%Z /\ plabel q = plabel p /\
+                    (force = true -> label p = label q)
+        end.
+Proof. exact clustering_sup_links. Qed.
+
+(* the forest: every sample reaches exactly one root, in fewer than n steps *)
+Theorem C13_sup_forest :
+  forall (zero top bot : Z) (force : bool) (g : @knn Z) (n : nat),
+    length (k_label g) = n -> length (k_cost g) = n -> length (k_pred g) = n ->
+    length (k_root g) = n -> length (k_plabel g) = n -> length (k_clabel g) = n ->
+    (forall p q, In q (nth p (k_adj g) []) -> q < n) ->
+    (forall i, i < n -> (nth i (k_cost g) zero < nth i (k_dens g) zero)%Z) ->
+    (force = true -> forall i, i < n -> (bot < nth i (k_cost g) zero)%Z) ->
+    let g' := clustering_sup Z.ltb zero top bot force g in
+    let pred := fun q => nth q (k_pred g') None in
+    let root := fun q => nth q (k_root g') 0 in
+    let cost := fun q => nth q (k_cost g') zero in
+    let plabel := fun q => nth q (k_plabel g') 0 in
+    let dens := fun q => nth q (k_dens g) zero in
+    let cost0 := fun q => nth q (k_cost g) zero in
+    let label := fun q => nth q (k_label g) 0 in
+    forall q, q < n ->
+      exists r k, k < n /\ r < n /\ reaches pred q r k /\ pred r = None /\
+        (forall r', root_of pred q r' -> r' = r) /\
+        root q = r /\ (cost q <= cost r)%Z /\ cost r = dens r /\ (cost0 q < dens r)%Z /\
+        plabel q = plabel r /\ plabel r = label r /\
+        (force = true -> label q = label r).
+Proof. exact clustering_sup_forest. Qed.
+
+Theorem C13_sup_density_gap :
+  forall (zero top bot : Z) (force : bool) (g : @knn Z) (n : nat),
+    length (k_label g) = n -> length (k_cost g) = n -> length (k_pred g) = n ->
+    length (k_root g) = n -> length (k_plabel g) = n -> length (k_clabel g) = n ->
+    (forall p q, In q (nth p (k_adj g) []) -> q < n) ->
+    (forall i, i < n -> (nth i (k_cost g) zero < nth i (k_dens g) zero)%Z) ->
+    (force = true -> forall i, i < n -> (bot < nth i (k_cost g) zero)%Z) ->
+    let g' := clustering_sup Z.ltb zero top bot force g in
+    let root := fun q => nth q (k_root g') 0 in
+    let dens := fun q => nth q (k_dens g) zero in
+    (forall q, q < n -> nth q (k_cost g) zero = (dens q - 1)%Z) ->
+    forall q, q < n -> (dens q < dens (root q) + 1)%Z.
+Proof. exact clustering_sup_density_gap. Qed.
+
+(* ---------------- unsupervised ---------------- *)
+
+Theorem C13_unsup_order :
+  forall (zero top bot : Z) (k : nat) (g : @knn Z) (n : nat),
+    length (k_label g) = n -> length (k_cost g) = n -> length (k_pred g) = n ->
+    length (k_root g) = n -> length (k_plabel g) = n -> length (k_clabel g) = n ->
+    (forall p q, In q (nth p (k_adj g) []) -> q < n) ->
+    (forall i, i < n -> (nth i (k_cost g) zero < nth i (k_dens g) zero)%Z) ->
+    let g' := clustering_unsup Z.ltb zero top bot k g in
+    exists ord, k_order g' = k_order g ++ ord /\ Permutation ord (seq 0 n).
+Proof. exact clustering_unsup_order. Qed.
+
+Theorem C13_unsup_links :
+  forall (zero top bot : Z) (k : nat) (g : @knn Z) (n : nat),
+    length (k_label g) = n -> length (k_cost g) = n -> length (k_pred g) = n ->
+    length (k_root g) = n -> length (k_plabel g) = n -> length (k_clabel g) = n ->
+    (forall p q, In q (nth p (k_adj g) []) -> q < n) ->
+    (forall i, i < n -> (nth i (k_cost g) zero < nth i (k_dens g) zero)%Z) ->
+    let g' := clustering_unsup Z.ltb zero top bot k g in
+    let pred := fun q => nth q (k_pred g') None in
+    let root := fun q => nth q (k_root g') 0 in
+    let cost := fun q => nth q (k_cost g') zero in
+    let clabel := fun q => nth q (k_clabel g') 0 in
+    let dens := fun q => nth q (k_dens g) zero in
+    let cost0 := fun q => nth q (k_cost g) zero in
+    k_label g' = k_label g /\ k_dens g' = k_dens g /\
+    (k_adj g', k_nplat g') = plateau_unsup Z.ltb zero k n (k_dens g) (k_adj g) (k_nplat g) /\
+    exists ord, k_order g' = k_order g ++ ord /\ Permutation ord (seq 0 n) /\
+      forall q, q < n ->
+        match pred q with
+        | None => root q = q /\ cost q = dens q
+        | Some p => p < n /\ before ord p q /\
+                    In q (firstn (nth p (k_nplat g') 0 + k) (nth p (k_adj g') [])) /\
+                    root q = root p /\ cost q = Z.min (cost p) (dens q) /\
+                    (cost0 q < cost q)%Z /\ clabel q = clabel p
+        end.
+Proof. exact clustering_unsup_links. Qed.
+
+Theorem C13_unsup_forest :
+  forall (zero top bot : Z) (k : nat) (g : @knn Z) (n : nat),
+    length (k_label g) = n -> length (k_cost g) = n -> length (k_pred g) = n ->
+    length (k_root g) = n -> length (k_plabel g) = n -> length (k_clabel g) = n ->
+    (forall p q, In q (nth p (k_adj g) []) -> q < n) ->
+    (forall i, i < n -> (nth i (k_cost g) zero < nth i (k_dens g) zero)%Z) ->
+    let g' := clustering_unsup Z.ltb zero top bot k g in
+    let pred := fun q => nth q (k_pred g') None in
+    let root := fun q => nth q (k_root g') 0 in
+    let cost := fun q => nth q (k_cost g') zero in
+    let clabel := fun q => nth q (k_clabel g') 0 in
+    let dens := fun q => nth q (k_dens g) zero in
+    let cost0 := fun q => nth q (k_cost g) zero in
+    forall q, q < n ->
+      exists r j, j < n /\ r < n /\ reaches pred q r j /\ pred r = None /\
+        (forall r', root_of pred q r' -> r' = r) /\
+        root q = r /\ (cost q <= cost r)%Z /\ cost r = dens r /\ (cost0 q < dens r)%Z /\
+        clabel q = clabel r.
+Proof. exact clustering_unsup_forest. Qed.
+
+Theorem C13_unsup_density_gap :
+  forall (zero top bot : Z) (k : nat) (g : @knn Z) (n : nat),
+    length (k_label g) = n -> length (k_cost g) = n -> length (k_pred g) = n ->
+    length (k_root g) = n -> length (k_plabel g) = n -> length (k_clabel g) = n ->
+    (forall p q, In q (nth p (k_adj g) []) -> q < n) ->
+    (forall i, i < n -> (nth i (k_cost g) zero < nth i (k_dens g) zero)%Z) ->
+    let g' := clustering_unsup Z.ltb zero top bot k g in
+    let root := fun q => nth q (k_root g') 0 in
+    let dens := fun q => nth q (k_dens g) zero in
+    (forall q, q < n -> nth q (k_cost g) zero = (dens q - 1)%Z) ->
+    forall q, q < n -> (dens q < dens (root q) + 1)%Z.
+Proof. exact clustering_unsup_density_gap. Qed.
+
+(* n_clusters = number of roots; the i-th root in removal order has identifier i; root
+   identifiers are pairwise distinct and are exactly 0..n_clusters-1; every sample's
+   identifier is below n_clusters *)
+Theorem C13_unsup_ids :
+  forall (zero top bot : Z) (k : nat) (g : @knn Z) (n : nat),
+    length (k_label g) = n -> length (k_cost g) = n -> length (k_pred g) = n ->
+    length (k_root g) = n -> length (k_plabel g) = n -> length (k_clabel g) = n ->
+    (forall p q, In q (nth p (k_adj g) []) -> q < n) ->
+    (forall i, i < n -> (nth i (k_cost g) zero < nth i (k_dens g) zero)%Z) ->
+    let g' := clustering_unsup Z.ltb zero top bot k g in
+    let pred := fun q => nth q (k_pred g') None in
+    let clabel := fun q => nth q (k_clabel g') 0 in
+    let isroot := fun q => match pred q with None => true | Some _ => false end in
+    k_nclusters g' = length (filter isroot (seq 0 n)) /\
+    (exists ord, k_order g' = k_order g ++ ord /\ Permutation ord (seq 0 n) /\
+       length (filter isroot ord) = k_nclusters g' /\
+       forall i, i < k_nclusters g' -> clabel (nth i (filter isroot ord) 0) = i) /\
+    (forall r, r < n -> pred r = None -> clabel r < k_nclusters g') /\
+    (forall r r', r < n -> r' < n -> pred r = None -> pred r' = None ->
+       clabel r = clabel r' -> r = r') /\
+    (forall i, i < k_nclusters g' -> exists r, r < n /\ pred r = None /\ clabel r = i) /\
+    (forall q, q < n -> clabel q < k_nclusters g').
+Proof. exact clustering_unsup_ids. Qed.
+
+(* ---------------- label propagation ---------------- *)
+
+Theorem C13_propagate_labels_spec :
+  forall g : @knn Z,
+    k_plabel (propagate_labels g) =
+      map (fun i => nth (nth i (k_root g) 0) (k_label g) 0) (seq 0 (length (k_label g))) /\
+    k_root (propagate_labels g) = k_root g /\ k_pred (propagate_labels g) = k_pred g /\
+    k_label (propagate_labels g) = k_label g.
+Proof. exact propagate_labels_spec. Qed.
+
+Theorem C13_propagate_labels_root :
+  forall (zero top bot : Z) (k : nat) (g : @knn Z) (n : nat),
+    length (k_label g) = n -> length (k_cost g) = n -> length (k_pred g) = n ->
+    length (k_root g) = n -> length (k_plabel g) = n -> length (k_clabel g) = n ->
+    (forall p q, In q (nth p (k_adj g) []) -> q < n) ->
+    (forall i, i < n -> (nth i (k_cost g) zero < nth i (k_dens g) zero)%Z) ->
+    let g' := clustering_unsup Z.ltb zero top bot k g in
+    let pred := fun q => nth q (k_pred g') None in
+    forall q, q < n ->
+      exists r, r < n /\ root_of pred q r /\ (forall r', root_of pred q r' -> r' = r) /\
+        nth q (k_plabel (propagate_labels g')) 0 = nth r (k_label g) 0.
+Proof. exact propagate_labels_root. Qed.
